@@ -240,7 +240,7 @@ def parse_diag(out):
     res = {}
     for m in re.finditer(r"\[([^\[\]]*)\]", out):
         nums = [int(x) for x in re.findall(r"(\d+)%N", m.group(1))]
-        if nums and 7001 <= nums[0] <= 7009:
+        if nums and 7001 <= nums[0] <= 7012:
             res[nums[0]] = nums[1:]
     return res
 
@@ -317,6 +317,13 @@ def run(ck, tier, rng):
     else:
         ck.notes.append("diagnostics (custom read rows) did not compile: " + dout3[-300:])
     custom_read_ok = set(diag.get(7008, []))
+    # round trip of the custom classes lifted to rows by proofs/C11_rows_custom_rt.v (7010 covered, 7011 xsd:double: partial)
+    rc4, dout4 = _run(["timeout", "600", "coqc", "-Q", ".", "V", "diag/Diag_C11d.v"], cwd=COQ)
+    if rc4 == 0:
+        diag.update(parse_diag(dout4))
+    else:
+        ck.notes.append("diagnostics (custom round-trip rows) did not compile: " + dout4[-300:])
+    custom_rt_ok = set(diag.get(7010, []))
     # a custom row whose lexical space the class theorem does not cover (7009) is replayed like a generic read failure
     diag[7002] = list(diag.get(7002, [])) + [i for i in diag.get(7009, []) if i not in diag.get(7002, [])]
     for rid in diag.get(7001, []) + diag.get(7007, []):
@@ -438,7 +445,9 @@ def run(ck, tier, rng):
                "read_refuted_by_theorem": [rows[i]["sig"] for i in sorted(set(diag.get(7002, [])))],
                "write_not_judged": [rows[i]["sig"] for i in diag.get(7003, []) if i not in custom_ok],
                "read_not_judged": [rows[i]["sig"] for i in diag.get(7004, []) if i not in custom_read_ok and i not in diag.get(7009, [])],
-               "roundtrip_not_covered_by_theorem": [rows[i]["sig"] for i in diag.get(7005, [])],
+               "roundtrip_not_covered_by_theorem": [rows[i]["sig"] for i in diag.get(7005, []) if i not in custom_rt_ok],
+               "roundtrip_covered_by_class_theorem": [rows[i]["sig"] for i in sorted(custom_rt_ok)],
+               "roundtrip_partial_xsd_double": [rows[i]["sig"] for i in diag.get(7011, [])],
                "simple_types": len(meta["simple_types"]), "gallina_defs": meta["n_defs"],
                "correspondence_diffs": diffs, "exhaustive": False})
 
